@@ -448,7 +448,7 @@ def inject_c12_overlay(scratch):
     values, whose fields are private to that module), plus logging compiled out in the scratch
     copy's Cargo.toml (tracing/log `max_level_off`: the documented static filter; no source change)."""
     tsrc = os.path.join(scratch.repo, "tarpc", "src")
-    shutil.copy(os.path.join(VERIF, "experiments", "tarpc_overlay_c12.rs"), os.path.join(tsrc, "server", "verif_overlay_c12.rs"))
+    shutil.copy(os.path.join(VERIF, "overlay", "tarpc_overlay_c12.rs"), os.path.join(tsrc, "server", "verif_overlay_c12.rs"))
     shutil.copy(os.path.join(VERIF, "harness", "common", "nd.rs"), os.path.join(tsrc, "verif_nd.rs"))
     with open(os.path.join(tsrc, "server.rs"), "a") as f:
         f.write("\n#[cfg(any(kani, verif_replay))]\n#[path = \"server/verif_overlay_c12.rs\"]\nmod verif_overlay_c12;\n")
@@ -456,6 +456,19 @@ def inject_c12_overlay(scratch):
     if "pub mod nd;" not in open(lib).read():
         with open(lib, "a") as f:
             f.write("\n#[cfg(any(kani, verif_replay))]\n#[allow(missing_docs, dead_code, unused_imports, unused_macros)]\n#[path = \"verif_nd.rs\"]\npub mod nd;\n")
+    # the Arc::drop_slow stub names the (unstable) Allocator trait: enable it for the Kani build only
+    lt = open(lib).read()
+    open(lib, "w").write("#![cfg_attr(kani, feature(allocator_api))]\n" + lt)
+    # tokio's mpsc behind RequestCancellation (dropped with every refused TrackedRequest) wakes a
+    # waker through a raw vtable pointer on sender drop: replaced under Kani by the waker-less model
+    shutil.copy(os.path.join(VERIF, "overlay", "verif_env.rs"), os.path.join(tsrc, "verif_env.rs"))
+    with open(lib, "a") as fh:
+        fh.write("\n#[cfg(kani)]\n#[path = \"verif_env.rs\"]\npub(crate) mod verif_env;\n")
+    cf = os.path.join(tsrc, "cancellations.rs")
+    cc = open(cf).read()
+    if "use tokio::sync::mpsc;" not in cc:
+        raise Inconclusive("cancellations.rs: `use tokio::sync::mpsc;` not found")
+    open(cf, "w").write(cc.replace("use tokio::sync::mpsc;", "#[cfg(not(kani))]\nuse tokio::sync::mpsc;\n#[cfg(kani)]\nuse crate::verif_env::mpsc;", 1))
     cargo = os.path.join(scratch.repo, "tarpc", "Cargo.toml")
     c = open(cargo).read()
     c2 = re.sub(r'(tracing = \{ version = "0\.1", default-features = false, features = \[)', r'\1\n    "max_level_off",', c, count=1)
